@@ -60,6 +60,8 @@ fn main() {
             0
         }
         #[cfg(feature = "kit-sim")]
+        "c20-child" => props::c20::child(&args[1]),
+        #[cfg(feature = "kit-sim")]
         "c01-hunt" => {
             props::c01::hunt(args[1].parse().unwrap(), args[2].parse().unwrap(), args[3].parse().unwrap());
             0
